@@ -5,6 +5,7 @@ import (
 	"errors"
 	"fmt"
 	"io"
+	"math"
 	"slices"
 	"strconv"
 	"strings"
@@ -147,6 +148,25 @@ func Value(o Object) Object {
 	}
 }
 
+// cmpIntFloat is the exact three-way comparison of an int64 with a float64: the integer is not
+// rounded to float64 (which would make 1<<53+1 equal to 1<<53 and the order not transitive).
+// NaN sorts before everything, like in cmp.Compare.
+func cmpIntFloat(i int64, f float64) int {
+	switch {
+	case math.IsNaN(f):
+		return 1
+	case f >= 1<<63:
+		return -1
+	case f < -(1 << 63):
+		return 1
+	}
+	t := math.Trunc(f) // in int64 range, so the conversion below is exact.
+	if c := cmp.Compare(i, int64(t)); c != 0 {
+		return c
+	}
+	return cmp.Compare(t, f) // same integer part: the fractional part of f decides.
+}
+
 func Cmp(ei, ej Object) int {
 	// dereference references
 	ei = Value(ei)
@@ -155,15 +175,10 @@ func Cmp(ei, ej Object) int {
 	tj := ej.Type()
 	if areIntFloat(ti, tj) {
 		// We have float and integer, let's sort them together.
-		var v1, v2 float64
 		if ti == INTEGER {
-			v1 = float64(ei.(Integer).Value)
-			v2 = ej.(Float).Value
-		} else {
-			v1 = ei.(Float).Value
-			v2 = float64(ej.(Integer).Value)
+			return cmpIntFloat(ei.(Integer).Value, ej.(Float).Value)
 		}
-		return cmp.Compare(v1, v2)
+		return -cmpIntFloat(ej.(Integer).Value, ei.(Float).Value)
 	}
 	if ti < tj {
 		return -1
